@@ -722,10 +722,19 @@ impl Stringify for Value {
                     stringifier: &mut Stringifier<'s, W>,
                     start_location: &Range<Position>,
                     end_location: &Range<Position>,
+                    is_last: bool,
                 ) -> FmtResult {
                     match expr {
                         Expression::LitStr { value, location } => {
-                            stringifier.write_token(&escape_html_body(value), None, location)?;
+                            let escaped = escape_html_body(value);
+                            match escaped.strip_suffix('{') {
+                                // a trailing `{` would join the `{{` of the binding that follows
+                                Some(head) if !is_last => {
+                                    let escaped = format!("{}&#123;", head);
+                                    stringifier.write_token(&escaped, None, location)?;
+                                }
+                                _ => stringifier.write_token(&escaped, None, location)?,
+                            }
                             return Ok(());
                         }
                         Expression::ToStringWithoutUndefined { value, location } => {
@@ -751,8 +760,20 @@ impl Stringify for Value {
                                 false
                             };
                             if split {
-                                split_expression(&left, stringifier, start_location, location)?;
-                                split_expression(&right, stringifier, location, end_location)?;
+                                split_expression(
+                                    &left,
+                                    stringifier,
+                                    start_location,
+                                    location,
+                                    false,
+                                )?;
+                                split_expression(
+                                    &right,
+                                    stringifier,
+                                    location,
+                                    end_location,
+                                    is_last,
+                                )?;
                                 return Ok(());
                             }
                         }
@@ -768,6 +789,7 @@ impl Stringify for Value {
                     stringifier,
                     &double_brace_location.0,
                     &double_brace_location.1,
+                    true,
                 )?;
             }
         }
